@@ -65,7 +65,7 @@ func verifC11_TrafficController() {
 		tc.CreateTrafficGate(ns, eg)
 	}
 	space := tc.namespaces[ns] // what an HTTP server holds as its MuxMapper
-	verifRaceScope(tc, "TrafficController")
+	verifRaceScopeDeep(tc, "TrafficController")
 
 	// the mutator: one admin operation on a or on another object
 	op := verifChoose("operation", 6)
